@@ -7,7 +7,7 @@ file boundaries). Every chunk match consists of whole lines starting at its repo
 its ranges, reports for each range a line and a character column that agree with the byte offset, and never overlaps
 another chunk of the same file; a file-name match reports the file name as its text.
 -/
-import ZoektModel.C03.Lemmas6
+import ZoektModel.C03.Lemmas7
 namespace ZoektModel.C03
 open ZoektModel
 
@@ -111,6 +111,81 @@ theorem filename_chunk_text (data name : Bytes) (ctx : Nat) (ms : List Cand) (g 
     simp only [hfn, if_true] at this
     refine ⟨⟨⟨⟨⟨by omega, this⟩, trivial⟩, trivial⟩, by omega⟩, by omega⟩
 
+/-- **`columnHelper_cache_correct`**: whenever the cache is consistent and the line start and the offset are rune
+    boundaries of the content (positions `utf8.DecodeRune` reaches from the start of the file), the column computed with
+    the cache equals the from-scratch count `1 + RuneCount(data[lineStart:offset])`, and the cache stays consistent —
+    for any sequence of such queries (increasing or not, same line or not). -/
+theorem columnHelper_cache_correct (data : Bytes) (st : ColSt) (lineOffset offset : Nat) (inv : ColInv data st)
+    (hle : lineOffset ≤ offset) (b1 : IsBoundary data lineOffset) (b2 : IsBoundary data offset) :
+    (colGet data st lineOffset offset).2 = 1 + runeCount (Bytes.slice data lineOffset offset) ∧
+    ColInv data (colGet data st lineOffset offset).1 :=
+  colGet_correct data st lineOffset offset inv hle b1 b2
+
+/-- **`range_locations_agree`, columns** (chunk mode): if the gathered content candidates start and end on rune
+    boundaries, every range of every chunk match reports, for its start and for its end, the column
+    1 + (runes between the start of the reported line and the byte offset), the one column cache being threaded through
+    all ranges of all chunks of the file. -/
+theorem range_columns_agree (data name : Bytes) (ctx : Nat) (ms : List Cand) (g : Gathered data name ms)
+    (hc : ms.filter (fun c => !c.fileName) ≠ []) (hal : Aligned data (ms.filter (fun c => !c.fileName))) :
+    ∀ cm ∈ fillChunkMatches data name ctx ms, chunkColsOk data cm = true := by
+  have hlen : (ms.filter (fun c => !c.fileName)).length > 0 := List.length_pos_iff.mpr hc
+  obtain ⟨hd, hb⟩ := g.content
+  have hsorted : isSortedCands (ms.filter (fun c => !c.fileName)) = true :=
+    C02.isSortedCands_of_pairwise _ (g.sorted.filter _)
+  have hspec := chunkCandidates_spec (wf_ofData data) ctx (ms.filter (fun c => !c.fileName)) hd
+    (fun c h => (hb c h).2)
+  simp only [fillChunkMatches, hlen, if_true, fillContentChunkMatches, hsorted]
+  apply chunkMatches_cols data ctx _ {} (colInv_init data)
+  intro ch hch c hcc
+  apply hal c
+  rw [← hspec.2.2]
+  exact List.mem_flatMap.mpr ⟨ch, hch, hcc⟩
+
+/-- **C03 (chunk mode) as evaluated by the driver on the implementation's output**: the whole chunk half of the
+    statement holds of `fillChunkMatches` for every document, context size and gathered candidate list whose content
+    candidates are rune-aligned. -/
+theorem C03_checkChunks (data name : Bytes) (ctx : Nat) (ms : List Cand) (g : Gathered data name ms)
+    (hal : Aligned data (ms.filter (fun c => !c.fileName))) :
+    checkChunks data name (fillChunkMatches data name ctx ms) = true := by
+  by_cases hc : ms.filter (fun c => !c.fileName) = []
+  · obtain ⟨h1, h2⟩ := filename_chunk_text data name ctx ms g hc
+    rw [h1]
+    simp [checkChunks, fileNameChunk, chunksDisjoint] at h2 ⊢
+    simpa [fileNameChunk] using h2
+  · obtain ⟨h1, h2, _⟩ := chunk_whole_lines data name ctx ms g hc
+    have h3 := range_columns_agree data name ctx ms g hc hal
+    unfold checkChunks
+    rw [Bool.and_eq_true]
+    constructor
+    · rw [List.all_eq_true]
+      intro cm hcm
+      have := h1 cm hcm
+      simp only [this.1, Bool.false_eq_true, if_false, chunkOk, this.2.1, this.2.2, h3 cm hcm, Bool.and_self]
+    · have : (fillChunkMatches data name ctx ms).filter (fun cm => !cm.fileName) = fillChunkMatches data name ctx ms := by
+        rw [List.filter_eq_self]
+        intro cm hcm
+        simp [(h1 cm hcm).1]
+      rw [this]; exact h2
+
+/-- **C03 (line mode) as evaluated by the driver**, without the two line-count clauses of the context (the context
+    *text* is proved to be the bytes between the neighbouring line starts) -/
+theorem C03_checkLines_partial (data name : Bytes) (ctx : Nat) (ms : List Cand) (g : Gathered data name ms) :
+    ∃ lms, fillMatches data name ctx ms = some lms ∧
+      ∀ lm ∈ lms, if lm.fileName then fileNameLineOk name lm = true
+                  else (lineCoreOk data lm = true ∧ lineContextOk data ctx lm = true) := by
+  by_cases hc : ms.filter (fun c => !c.fileName) = []
+  · obtain ⟨h1, h2⟩ := filename_match_text data name ctx ms g hc
+    refine ⟨_, h1, ?_⟩
+    intro lm hlm
+    simp only [List.mem_singleton] at hlm
+    subst hlm
+    simpa [fileNameLine] using h2
+  · obtain ⟨lms, h1, h2, _⟩ := line_fields_agree data name ctx ms g hc
+    refine ⟨lms, h1, ?_⟩
+    intro lm hlm
+    have := h2 lm hlm
+    simp [this.1, this.2.1, this.2.2]
+
 /-! non-vacuity: "ab\ncd\n" with a file-name candidate, a candidate on line 1 and one spanning the newline -/
 def exData : Bytes := [97, 98, 10, 99, 100, 10]
 def exName : Bytes := [102, 46, 103, 111]
@@ -119,6 +194,13 @@ theorem exGathered : Gathered exData exName exCands :=
   ⟨by decide, by decide, by decide⟩
 example := line_fields_agree exData exName 1 exCands exGathered (by decide)
 example := chunk_whole_lines exData exName 1 exCands exGathered (by decide)
+theorem exAligned : Aligned exData (exCands.filter (fun c => !c.fileName)) := by
+  intro c hc
+  have : c = ⟨false, 0, 1⟩ ∨ c = ⟨false, 1, 3⟩ := by simpa [exCands] using hc
+  rcases this with rfl | rfl <;>
+  exact ⟨isBoundary_of_ascii _ _ _ (Nat.le_refl _) (by decide) (by decide),
+         isBoundary_of_ascii _ _ _ (Nat.le_refl _) (by decide) (by decide)⟩
+example := C03_checkChunks exData exName 1 exCands exGathered exAligned
 
 example : atOffset (Newlines.ofData [97, 10, 10, 98]) 2 = 2 ∧ lineStart (Newlines.ofData [97, 10, 10, 98]) 3 = 3 := by
   rw [atOffset_spec]; decide
